@@ -37,6 +37,7 @@ C01EvalFails(c) ==
        <<"get_gates_truth_table", C01TableExact(o.gtt, tt, labels)>>,
        <<"evaluate_circuit", C01TablePartial(o.circ, tt, labels, Reach(ck, SeqSet(ck.o)))>>,
        <<"bench-conversion-denotes-the-same-function", ~Has(o, "bench") \/ RowSets(o.bench) = outTT>>,
+       <<"bench-conversion-keeps-every-gate-value", ~Has(o, "bench_full") \/ C01TableExact(o.bench_full, tt, labels)>>,
        <<"evaluate_circuit_outputs(reused-dict)", ~Has(o, "outs_r") \/ C01TableExact(o.outs_r, tt, SeqSet(ck.o))>>,
        <<"evaluate_full_circuit(reused-dict)", ~Has(o, "full_r") \/ C01TableExact(o.full_r, tt, labels)>>,
        <<"evaluate_circuit(reused-dict)", ~Has(o, "circ_r") \/
